@@ -325,12 +325,39 @@ def class_overwrite(hdr, items):
     return False
 
 
+def class_reflush(hdr, items):
+    """parsec_dtd_data_flush of a tile that was used and flushed since the last wait: PARSEC_DTD_TILE_OF creates a
+       new tile and resets data_copy->readers to 0 although tasks inserted before the first flush still hold reader
+       references on the owner's copy; a later writer of the old tile then overtakes those readers"""
+    nd = hdr["ndata"]
+    used = [False] * nd          # named by a task since the last wait
+    flushed = [False] * nd       # ... and flushed afterwards
+    for it in items:
+        if it[0] == "T":
+            for (d, m) in it[2]:
+                used[d] = True
+        elif it[0] == "F":
+            if it[1] is None:
+                for d in range(nd):
+                    if used[d]:
+                        flushed[d] = True
+            else:
+                if flushed[it[1]]:
+                    return True
+                if used[it[1]]:
+                    flushed[it[1]] = True
+        else:
+            used = [False] * nd
+            flushed = [False] * nd
+    return False
+
+
 def defect_classes(case):
     try:
         hdr, items = parse_case(case)
     except Exception:
-        return (False, False)
-    return (class_stale_desc(hdr, items), class_overwrite(hdr, items))
+        return (False, False, False)
+    return (class_stale_desc(hdr, items), class_overwrite(hdr, items), class_reflush(hdr, items))
 
 
 def repo_has(relpath, marker):
@@ -409,14 +436,23 @@ class C17(Check):
         self.fixed_a = "a" in fixed or repo_has("parsec/interfaces/dtd/overlap_strategies.c", "via_local_reader")
         self.fixed_b = "b" in fixed or repo_has("parsec/interfaces/dtd/parsec_dtd_data_flush.c",
                                                 "parsec_dtd_data_copy_reader_count(tile->data_copy)")
+        self.fixed_c = "c" in fixed or not repo_has("parsec/interfaces/dtd/insert_function.c",
+                                                    "tile->data_copy->readers = 0;")
 
     # ---- running the real code: one MPI job per configuration -------------------------
     def impl_timeout(self):
         return 1500 if self.tier == "quick" else 6000
 
+    max_hangs = 6            # a broken runtime must not stretch the run to (cases) x (time-out)
+
     def run_group(self, tag, ranks, lines, stall):
         res, rest, attempt = [], list(lines), 0
-        while rest and attempt < 6:
+        while rest and attempt < 4:
+            if getattr(self, "nhangs", 0) >= self.max_hangs:
+                res += ["<impl not run: %d cases hung before>" % self.nhangs] * len(rest)
+                return res
+            if getattr(self, "nhangs", 0) >= 2:
+                stall = min(stall, 20)
             cf = "%s.a%d.txt" % (tag, attempt)
             of = cf + ".out"
             with open(cf, "w") as f:
@@ -433,12 +469,12 @@ class C17(Check):
                 while p.poll() is None:
                     time.sleep(0.05)
                     try:
-                        n = sum(1 for _ in open(of))
+                        n = sum(1 for _ in open(of))      # "#ready" (start-up done) + one line per case
                     except OSError:
                         n = 0
                     if n != seen:
                         seen, last = n, time.time()
-                    elif time.time() - last > stall + (90 if seen == 0 else 0):
+                    elif time.time() - last > (stall if seen > 0 else 150):   # MPI_Init + parsec_init can be slow
                         why = "hang: no completion within %d s" % stall
                         break
             finally:
@@ -463,10 +499,12 @@ class C17(Check):
                 got = [l.rstrip("\n") for l in open(of)]
             except OSError:
                 got = []
-            got = [l for l in got if l][:len(rest)]
+            got = [l for l in got if l and not l.startswith("#")][:len(rest)]
             res += got
             rest = rest[len(got):]
             if rest:
+                if why:
+                    self.nhangs = getattr(self, "nhangs", 0) + 1
                 tail = "".join(ch for ch in err.decode("ascii", "replace").replace("\n", " ")
                                if " " <= ch <= "~").strip()[-120:]
                 res.append("<impl %s rc=%s: %s>" % (why or "crash", p.returncode, tail))
@@ -520,8 +558,11 @@ class C17(Check):
         return base + extra
 
     def excluded(self, case):
-        a, b = defect_classes(case)
-        return (a and not self.fixed_a) or (b and not self.fixed_b)
+        a, b, c = defect_classes(case)
+        return (a and not self.fixed_a) or (b and not self.fixed_b) or (c and not self.fixed_c)
+
+    def all_fixed(self):
+        return self.fixed_a and self.fixed_b and self.fixed_c
 
     def gen_cases(self, per_cfg, maxtasks):
         r = self.rng
@@ -549,7 +590,7 @@ class C17(Check):
         return out
 
     def cases(self):
-        fixed = self.directed_cases() if (self.fixed_a and self.fixed_b) else []
+        fixed = self.directed_cases() if self.all_fixed() else []
         if self.tier == "quick":
             return fixed + self.gen_cases(14, 24)
         return fixed + self.gen_cases(120, 60)
@@ -557,6 +598,8 @@ class C17(Check):
     # directed inputs of the two defect classes (minimised from generated cases)
     def directed_cases(self):
         pp = " ; ".join(["@0 0x ; @1 0x"] * 4 + ["@0 0x"])
+        pq = " ; ".join(["@1 1x ; @0 1x"] * 4 + ["@1 1x"])
+        pr = " ; ".join(["@1 1x ; @0 1x"] * 6 + ["@1 1x"])
         return [
             # stale descriptor: rank 0 reads tile 1 between the writers T0 (rank 2) and T2 (rank 1); T2's descriptor
             # on rank 0 is recycled for T4, whose first flow is a read
@@ -567,17 +610,16 @@ class C17(Check):
             "dtdflush 2 2 2 lfq 0 0 7 0,1 | %s ; @1 0r 1r ; @0 1w ; F1 ; F*" % pp,
             "dtdflush 2 2 1 lfq 0 0 0 0,1 | %s ; @1 0r 1r ; @0 1w ; F1 ; F*" % pp,
             "dtdflush 2 2 2 lfq 0 0 7 0,1 | %s ; 1r^ 0r ; @0 1x ; F*" % pp,
+            # reader of tile 0 on its owner that waits for tile 1, a later writer of tile 0, tile 0 flushed twice
+            # (the 150 tasks on tile 2 give the fake first writer of tile 0 time to complete before the second flush)
+            "dtdflush 2 3 2 lfq 0 0 0 0,1,0 | %s ; @0 0r 1r ; @0 0x ; %s ; F0 ; F0 ; F*" % (pr, " ; ".join(["@0 2x"] * 150)),
+            "dtdflush 2 2 2 lfq 0 0 7 0,1 | %s ; @0 0r 1r ; @0 0x ; F0 ; F0 ; F*" % pq,
         ]
 
     def defect_cases(self):
-        if self.fixed_a and self.fixed_b:
+        if self.all_fixed():
             return []            # the directed cases are part of the differential stream
-        out = []
-        for c in self.directed_cases():
-            a, b = defect_classes(c)
-            if (a and not self.fixed_a) or (b and not self.fixed_b):
-                out.append(c)
-        return out
+        return [c for c in self.directed_cases() if self.excluded(c)]
 
     def main_flow(self):
         fails, oracle_fail, cases, impl, model = super().main_flow()
@@ -592,13 +634,15 @@ class C17(Check):
                     hits += 1
                     oracle_fail.append((len(cases) + i, why))
             self.cov["defect_stream"] = {"cases": len(extra), "violations": hits,
-                                         "note": "directed inputs of the two defect classes found by this check (stale "
-                                                 "descriptor of a remote task, flush overwriting a tile under a reader); "
+                                         "note": "directed inputs of the defect classes found by this check (stale "
+                                                 "descriptor of a remote task, flush overwriting a tile under a reader, "
+                                                 "second flush resetting the reader count); "
                                                  "decided by the oracle only, not diffed with the model"}
             cases = cases + extra
             impl = impl + eimpl
             model = model + emodel
-        self.cov["repairs_detected_in_sources"] = {"stale-remote-desc": self.fixed_a, "flush-overwrites-reader": self.fixed_b}
+        self.cov["repairs_detected_in_sources"] = {"stale-remote-desc": self.fixed_a, "flush-overwrites-reader": self.fixed_b,
+                                                   "reflush-resets-readers": self.fixed_c}
         return fails, oracle_fail, cases, impl, model
 
     def oracle(self, case, obs):
@@ -610,13 +654,17 @@ class C17(Check):
         kind = v[0] if v else "none"
         if kind in ("owner-copy", "task-input"):
             kind = "value"
-        a, b = defect_classes(case)
-        if a and b:
-            cls = "flush-overwrites-reader" if kind == "value" else "stale-remote-desc"
+        a, b, c = defect_classes(case)
+        if kind == "value" and c:
+            cls = "reflush-resets-readers"
+        elif kind == "value" and b:
+            cls = "flush-overwrites-reader"
         elif a:
             cls = "stale-remote-desc"
         elif b:
             cls = "flush-overwrites-reader"
+        elif c:
+            cls = "reflush-resets-readers"
         else:
             cls = "main"
         return "%s-%s" % (cls, kind)
